@@ -306,6 +306,49 @@ Proof.
 Qed.
 Print Assumptions C02_SE3_pow_group.
 
+(* the same for SE(2) (Base/RLin.v has no SE2 closure lemmas; they are small enough to prove here) *)
+Definition trinv2_ref (A : M33 R) : M33 R :=
+  rt2tr2 Rops (mtr22 (t2r2 A)) (vneg2 Rops (mv22 Rops (mtr22 (t2r2 A)) (transl2 A))).
+Lemma SE2_I : SE2 (I33 Rops).
+Proof. unfold SE2. lin_simpl. unfold SO2. repeat split; ring. Qed.
+Lemma SE2_mul (A B : M33 R) : SE2 A -> SE2 B -> SE2 (mmul33 Rops A B).
+Proof.
+  intros [HA LA] [HB LB]. split.
+  - assert (E : t2r2 (mmul33 Rops A B) = mmul22 Rops (t2r2 A) (t2r2 B)).
+    { destruct_tuples. lin_simpl. injection LA; injection LB; intros; subst. tuple_eq ltac:(ring). }
+    rewrite E. apply SO2_mul; assumption.
+  - destruct_tuples. lin_simpl. injection LA; injection LB; intros; subst. tuple_eq ltac:(ring).
+Qed.
+Lemma SE2_trinv2 (A : M33 R) : SE2 A -> SE2 (trinv2_ref A) /\ mmul33 Rops (trinv2_ref A) A = I33 Rops.
+Proof.
+  intros [HA LA]. destruct_tuples. unfold t2r2 in HA. pose proof (SO2_columns _ _ _ _ HA) as (?&?&?).
+  unfold trinv2_ref, SE2, SO2 in *. lin_simpl. injection LA; intros; subst. destruct HA as (?&?&?&?).
+  split; [split; [repeat split; nsatz | reflexivity] | tuple_eq ltac:(nsatz)].
+Qed.
+Lemma aff3_SE2 (X : M33 R) : SE2 X -> aff3 Rops X = X.
+Proof. intros [_ H]. destruct_tuples. gen_unfold. injection H; intros; subst. reflexivity. Qed.
+Lemma minv_aff3_SE2 (X : M33 R) : SE2 X -> minv_aff3 Rops X = trinv2_ref X.
+Proof.
+  intros H. pose proof H as [Hr _]. destruct (minv_aff3_inverse X (SO2_det _ Hr)) as [H1 _].
+  rewrite (aff3_SE2 X H) in H1.
+  apply (inverse_unique _ (mmul33 Rops) (I33 Rops) mmul33_assoc mmul33_I_l mmul33_I_r X); [exact H1|].
+  apply SE2_trinv2; exact H.
+Qed.
+
+Theorem C02_SE2_pow_group : forall (X : M33 R) (n : Z), SE2 X ->
+  SE2 (SE2_pow Rops X n) /\ SE2_pow Rops X (- n) = trinv2_ref (SE2_pow Rops X n).
+Proof.
+  intros X n H. pose proof H as [Hr _].
+  assert (Hc : forall k, SE2 (SE2_pow Rops X k)).
+  { intro k. unfold SE2_pow. rewrite (aff3_SE2 X H). apply (mpow_closed _ _ _ _ SE2); auto using SE2_I, SE2_mul.
+    rewrite minv_aff3_SE2 by assumption. apply SE2_trinv2; assumption. }
+  split; [apply Hc|].
+  destruct (C02_SE2_power_laws X (SO2_det _ Hr) 0%Z n) as (_ & _ & _ & _ & L1 & _ & _).
+  apply (inverse_unique _ (mmul33 Rops) (I33 Rops) mmul33_assoc mmul33_I_l mmul33_I_r (SE2_pow Rops X n)); [exact L1|].
+  apply SE2_trinv2. apply Hc.
+Qed.
+Print Assumptions C02_SE2_pow_group.
+
 Example C02_p_nonvacuous :
   det33 Rops ((3/5, -4/5, 0), (4/5, 3/5, 0), (0, 0, 1)) <> 0 /\
   SO3_pow Rops ((3/5, -4/5, 0), (4/5, 3/5, 0), (0, 0, 1)) 2 <> I33 Rops /\
